@@ -918,7 +918,7 @@ def gen_fault(rng):
     p = gen_flat(rng)
     # insert 1-2 throwers fed by existing ports
     ports = [str(s.lbl) for s in p.root if s.kind not in ("sink",)]
-    lbl = max(s.lbl for s in p.root) + 1
+    lbl = max([s.lbl for s in p.root] + [0]) + 1
     body = list(p.root)
     for i in range(rng.randint(1, 2)):
         if not ports:
